@@ -77,7 +77,7 @@ func (s *raSys) call(md string) {
 		tok = "t1"
 	case "empty":
 		ctx = metadata.NewIncomingContext(ctx, metadata.Pairs("app", "", "token", ""))
-	case "t1", "t2":
+	default: // a token: t1, t2, a proper prefix of t1 ("t"), an extension of it ("t1x")
 		ctx = metadata.NewIncomingContext(ctx, metadata.Pairs("app", "app1", "token", md))
 		app, tok = "app1", md
 	}
@@ -197,7 +197,7 @@ func TestVerifRpcAuth(t *testing.T) {
 	defer vrt.WriteReport()
 	logx.Disable()
 	stat.SetReporter(nil)
-	ops := []string{"call:none", "call:apponly", "call:tokenonly", "call:empty", "call:t1", "call:t2", "store:t1", "store:t2", "store:none", "down", "up", "t0", "t60", "t360"}
+	ops := []string{"call:none", "call:apponly", "call:tokenonly", "call:empty", "call:t1", "call:t2", "call:t", "call:t1x", "store:t1", "store:t2", "store:none", "down", "up", "t0", "t60", "t360"}
 	depth := 4
 	if vrt.Thorough() {
 		depth = 8
